@@ -150,14 +150,14 @@ fn strs_field(v: &[String], prefix: Option<&str>) -> String {
     out.join(".")
 }
 
-// step observation:  <manifest>;b<blob>,<blob>..[!];h- | h<entry>/<entry>/...
+// step observation:  <manifest>;b<blob>,<blob>..[!];hX (no store open) | h<entry>/<entry>/...
 //   entry = "-" | hash:fragname:deps:tests:diagname:load:loaddiag
 fn observe(ctx: &mut Ctx, store: &Option<Store>, np: usize) -> String {
     let m = manifest_field(&ctx.root);
     let (blobs, names_ok) = list_blobs(ctx);
     let mut s = format!("{};b{}{}", m, blobs.join(","), if names_ok { "" } else { "!" });
     match store {
-        None => s.push_str(";h-"),
+        None => s.push_str(";hX"),
         Some(st) => {
             let mut es = vec![];
             for p in 0..np {
@@ -271,9 +271,98 @@ fn run_seq(base: &Path, n: usize, line: &str) -> String {
     format!("OK {}", steps.join("|"))
 }
 
+
+// --lockprobe <dir>: (C30) while one Store holds the lock of <dir>/cache, Store::try_open on the same
+// root must return None WITHOUT waiting (flock conflicts between two open file descriptions also
+// inside one process); on another root it must succeed.  Prints  LOCKPROBE held=<none|some> ms=<n> other=<some|none>
+fn lockprobe(base: &Path) {
+    let root = base.join(format!("lp{}", std::process::id())).join("cache");
+    let other = base.join(format!("lp{}", std::process::id())).join("cache-ls");
+    let holder = Store::open(&root, "k1");
+    let t = std::time::Instant::now();
+    let second = Store::try_open(&root, "k1");
+    let ms = t.elapsed().as_millis();
+    let third = Store::try_open(&other, "k1");
+    println!(
+        "LOCKPROBE held={} ms={} other={}",
+        if second.is_some() { "some" } else { "none" },
+        ms,
+        if third.is_some() { "some" } else { "none" }
+    );
+    drop(second);
+    drop(third);
+    drop(holder);
+    // after the holder is gone the store can be opened again
+    let again = Store::try_open(&root, "k1");
+    println!("LOCKPROBE reopened={}", if again.is_some() { "some" } else { "none" });
+    drop(again);
+    let _ = fs::remove_dir_all(root.parent().unwrap());
+}
+
+// --awprobe <dir> <iters>: (C30) two threads replace one file with veryl_path::atomic_write (contents
+// A.. / B.., 256 KiB) while a third reads it: every read must be exactly one complete contents.
+// Prints  AWPROBE reads=<n> torn=<n> first_torn_len=<n>
+fn awprobe(base: &Path, iters: usize) {
+    let dir = base.join(format!("aw{}", std::process::id()));
+    fs::create_dir_all(&dir).unwrap();
+    let path = dir.join("manifest.toml");
+    let a = vec![b'A'; 256 * 1024];
+    let b = vec![b'B'; 256 * 1024 + 7];
+    veryl_path::atomic_write(&path, &a).unwrap();
+    let stop = std::sync::Arc::new(std::sync::atomic::AtomicBool::new(false));
+    let mut hs = vec![];
+    for content in [a.clone(), b.clone()] {
+        let p = path.clone();
+        hs.push(std::thread::spawn(move || {
+            for _ in 0..iters {
+                veryl_path::atomic_write(&p, &content).unwrap();
+            }
+        }));
+    }
+    let (p, s2) = (path.clone(), stop.clone());
+    let reader = std::thread::spawn(move || {
+        let (mut reads, mut torn, mut first) = (0usize, 0usize, 0usize);
+        while !s2.load(std::sync::atomic::Ordering::SeqCst) {
+            if let Ok(d) = fs::read(&p) {
+                reads += 1;
+                let ok = (d.len() == 256 * 1024 && d.iter().all(|x| *x == b'A'))
+                    || (d.len() == 256 * 1024 + 7 && d.iter().all(|x| *x == b'B'));
+                if !ok {
+                    if torn == 0 {
+                        first = d.len();
+                    }
+                    torn += 1;
+                }
+            } else {
+                // the file must never be absent either
+                torn += 1;
+            }
+        }
+        (reads, torn, first)
+    });
+    for h in hs {
+        h.join().unwrap();
+    }
+    stop.store(true, std::sync::atomic::Ordering::SeqCst);
+    let (reads, torn, first) = reader.join().unwrap();
+    let leftovers = fs::read_dir(&dir).map(|x| x.count()).unwrap_or(0);
+    println!("AWPROBE reads={} torn={} first_torn_len={} files_left={}", reads, torn, first, leftovers);
+    let _ = fs::remove_dir_all(&dir);
+}
+
 fn main() {
-    let base = PathBuf::from(std::env::args().nth(1).expect("scratch base dir"));
+    let args: Vec<String> = std::env::args().collect();
+    let probe = args.get(1).map(|x| x.as_str()).unwrap_or("");
+    let base = PathBuf::from(if probe.starts_with("--") { args.get(2) } else { args.get(1) }.expect("scratch base dir"));
     assert!(base.starts_with("/verif/.work/scratch"), "scratch dir must be under /verif/.work/scratch");
+    if probe == "--lockprobe" {
+        lockprobe(&base);
+        return;
+    }
+    if probe == "--awprobe" {
+        awprobe(&base, args.get(3).and_then(|x| x.parse().ok()).unwrap_or(200));
+        return;
+    }
     std::panic::set_hook(Box::new(|_| {}));
     let stdin = io::stdin();
     let out = io::stdout();
